@@ -77,7 +77,7 @@ func r5Filter(m map[string]hrec, pred func(hrec) bool) []string {
 func init() {
 	register(&Check{
 		ID:     "C14",
-		Rule:   "E1 on the pristine table: all records; every day 2001-01-01..(last year+1)-12-31 x {GetHoliday, GetHolidayByYmd, GetHolidays (dashed and undashed keys)}; every month and year x by-month/by-year views; every distinct target and every non-target day x by-target views; Solar.Next(n,true) for every day x n in +-{1..10,15,30} and 0; GetSalaryRate on every day; all compared with reference R5 (parsed record map, sorted filters, day-by-day working-day walk). E2: every Fix history over an alphabet of 24 fix-up calls (incl. a 12-entry name table and records with the 10th..12th name) to depth 2 (quick) / 3 (thorough), each history executed in its own fresh process (no harness reset), with all views, the workday walk and the pay rate around the affected days observed on the pristine table first and re-compared with R5 after every fix-up. non-trivial = days carrying a record or lying within 10 days of one, and every Fix transition",
+		Rule:   "E1 on the pristine table: all records; every day 2001-01-01..(last year+1)-12-31 x {GetHoliday, GetHolidayByYmd, GetHolidays (dashed and undashed keys)}; every month and year x by-month/by-year views; every distinct target and every non-target day x by-target views; Solar.Next(n,true) for every day x n in +-{1..10,15,30} and 0; GetSalaryRate on every day; all compared with reference R5 (parsed record map, sorted filters, day-by-day working-day walk). E2: every Fix history over an alphabet of 33 fix-up calls (incl. a 12-entry name table and records with the 10th..12th name) to depth 2 (quick); thorough adds every depth-3 history whose second and third call come from a 17-call core alphabet (one per structural kind); each history executed in its own fresh process (no harness reset), with all views, the workday walk and the pay rate around the affected days observed on the pristine table first and re-compared with R5 after every fix-up. non-trivial = days carrying a record or lying within 10 days of one, and every Fix transition",
 		Assume: []string{"R5: Fix(names, data) = for each 18-character segment insert/overwrite the record of its day, or delete it when the flag is '~'; views are date-ordered filters", "statutory pay-rate days as documented in Solar.GetSalaryRate (Jan 1, May 1, Oct 1-3, lunar 1/1-3, 5/5, 8/15, Qingming day) with lunar dates and Qingming from the library"},
 		Shards: func(tier string, seed int64) []Shard {
 			sh := []Shard{{Kind: "views", Tier: tier, Seed: seed}, {Kind: "walk", Arg: "0", Tier: tier, Seed: seed}, {Kind: "walk", Arg: "1", Tier: tier, Seed: seed}, {Kind: "walk", Arg: "2", Tier: tier, Seed: seed}, {Kind: "walk", Arg: "3", Tier: tier, Seed: seed}}
@@ -354,6 +354,17 @@ func c14FixOps() []fixOp {
 	}...)
 }
 
+// c14CoreOps: the fix-ups that may stand in second and third position of the thorough tier's depth-3 histories.
+var c14CoreOps = map[string]bool{
+	"add-day-before-last-record": true, "add-day-after-last-record": true, "add-day-before-first-record": true,
+	"add-record-whose-target-runs-into-the-key-2022": true,
+	"add-records-with-11th-and-12th-name":            true, "remove-records-with-11th-and-12th-name": true,
+	"add-inside-existing-year": true, "add-after-last-year": true, "add-before-first-year": true,
+	"replace-work-flag": true, "replace-target": true, "remove-existing": true, "remove-absent": true,
+	"two-segments-add-and-remove": true, "remove-inside-target-run": true,
+	"replace-day-referenced-by-earlier-targets": true, "make-up-record-on-mid-autumn-day": true,
+}
+
 // c14Fix: one shard per first operation. Every path [first, j(, k)] is executed in its own fresh process
 // (no harness reset between histories: a library that caches lookups and invalidates them inside Fix stays correct,
 // one that forgets an invalidation is caught), results are merged here.
@@ -366,13 +377,24 @@ func c14Fix(w *W) {
 	first := atoi(w.Shard.Arg)
 	exe, _ := os.Executable()
 	var paths [][]int
+	// thorough: every history [first, j] over the full alphabet plus every history [first, j, k] with j, k in the core
+	// alphabet (the full alphabet cubed is 40,000 processes — hours; the core keeps one fix-up per structural kind).
+	// A history is observed after each of its fix-ups, so [first, j] with j in the core is covered by [first, j, k].
+	core := map[int]bool{}
+	for i, op := range ops {
+		if c14CoreOps[op.name] {
+			core[i] = true
+		}
+	}
 	for j := range ops {
-		if depth == 2 {
+		if depth == 2 || !core[j] {
 			paths = append(paths, []int{first, j})
 			continue
 		}
 		for k := range ops {
-			paths = append(paths, []int{first, j, k})
+			if core[k] {
+				paths = append(paths, []int{first, j, k})
+			}
 		}
 	}
 	for _, pth := range paths {
